@@ -6,6 +6,41 @@ use ide::file_system::FilePosition;
 use ide::handlers::completion::CompletionItemKind;
 use verifharness::analysis;
 
+/// the tab stops of an LSP snippet other than the final `$0`: `$1`, `${1}`, `${1:default}`
+fn placeholders(snippet: &str) -> Vec<u32> {
+    let b = snippet.as_bytes();
+    let mut out = vec![];
+    let mut i = 0;
+    while i < b.len() {
+        if b[i] == b'$' {
+            let mut j = i + 1;
+            if j < b.len() && b[j] == b'{' { j += 1; }
+            let st = j;
+            while j < b.len() && b[j].is_ascii_digit() { j += 1; }
+            if j > st { let n: u32 = snippet[st..j].parse().unwrap(); if n != 0 && !out.contains(&n) { out.push(n); } }
+            i = j.max(i + 1);
+        } else { i += 1; }
+    }
+    out
+}
+/// fill every tab stop with a value and drop `$0`
+fn fill(snippet: &str) -> String {
+    let mut out = String::new();
+    let mut rest = snippet;
+    while let Some(p) = rest.find('$') {
+        out.push_str(&rest[..p]);
+        let after = &rest[p + 1..];
+        let (braced, body) = match after.strip_prefix('{') { Some(a) => (true, a), None => (false, after) };
+        let nd = body.bytes().take_while(|c| c.is_ascii_digit()).count();
+        let n: u32 = body[..nd].parse().unwrap_or(0);
+        let mut tail = &body[nd..];
+        if braced { tail = &tail[tail.find('}').map(|i| i + 1).unwrap_or(0)..]; }
+        if n != 0 { out.push_str(&n.to_string()); }
+        rest = tail;
+    }
+    out.push_str(rest);
+    out
+}
 fn classes_at(files: &[(&str, &str)], which: usize, marker: &str) -> Vec<(String, String)> {
     let (a, ids) = analysis(files);
     let off = files[which].1.find(marker).expect("marker") + marker.len();
@@ -15,8 +50,12 @@ fn classes_at(files: &[(&str, &str)], which: usize, marker: &str) -> Vec<(String
     got.sort();
     got
 }
-fn want(v: &[(&str, &str)]) -> Vec<(String, String)> {
-    let mut w: Vec<(String, String)> = v.iter().map(|(a, b)| (a.to_string(), b.to_string())).collect();
+/// (class name, number of placeholders); the snippet's own punctuation is not compared
+fn shape(got: &[(String, String)]) -> Vec<(String, usize)> {
+    got.iter().map(|(l, s)| { assert!(s.starts_with(l.as_str()), "WITNESS snippet {s:?} does not start with the class name {l}"); (l.clone(), placeholders(s).len()) }).collect()
+}
+fn want(v: &[(&str, usize)]) -> Vec<(String, usize)> {
+    let mut w: Vec<(String, usize)> = v.iter().map(|(a, b)| (a.to_string(), *b)).collect();
     w.sort();
     w
 }
@@ -24,20 +63,19 @@ fn want(v: &[(&str, &str)]) -> Vec<(String, String)> {
 fn parent_class_position_offers_exactly_the_classes_with_one_placeholder_per_parameter() {
     let t = "class A;\nclass B<int x>;\nclass C<int x, string y = \"s\", bit z = 0>;\nmulticlass M<int q> { def NAME; }\ndef d0 : A;\ndefset list<A> S = { def s0 : A; }\ndef use : A;\n";
     let got = classes_at(&[("/main.td", t)], 0, "def use : A");
-    assert_eq!(got, want(&[("A", "A$0"), ("B", "B<${1}>$0"), ("C", "C<${1}, ${2}, ${3}>$0")]), "WITNESS class completions in {t:?}");
+    assert_eq!(shape(&got), want(&[("A", 0), ("B", 1), ("C", 3)]), "WITNESS class completions in {t:?}");
 }
 #[test]
 fn classes_of_included_files_are_offered_and_defs_are_not() {
     let files = [("/main.td", "include \"sub.td\"\nclass Top<int a, int b>;\ndef d : Top;\n"), ("/sub.td", "class Sub<string s>;\ndef other;\n")];
     let got = classes_at(&files, 0, "def d : Top");
-    assert_eq!(got, want(&[("Sub", "Sub<${1}>$0"), ("Top", "Top<${1}, ${2}>$0")]), "WITNESS class completions in {files:?}");
+    assert_eq!(shape(&got), want(&[("Sub", 1), ("Top", 2)]), "WITNESS class completions in {files:?}");
 }
 #[test]
 fn every_offered_snippet_parses_as_a_reference_to_that_class() {
     let t = "class A;\nclass B<int x>;\nclass C<int x, int y, int z>;\ndef use : A;\n";
     for (label, snippet) in classes_at(&[("/main.td", t)], 0, "def use : A") {
-        let mut filled = snippet.replace("$0", "");
-        for i in 1..=9 { filled = filled.replace(&format!("${{{i}}}"), &i.to_string()); }
+        let filled = fill(&snippet);
         assert!(!filled.contains('$'), "WITNESS snippet {snippet:?} has an unexpected placeholder");
         let src = format!("{t}def probe : {filled};\n");
         let parse = syntax::parse(&src);
